@@ -646,6 +646,7 @@ Definition ok_case (tc : tcase) : bool :=
 Definition window_shape (tc : tcase) : bool :=
   let f := tc_file tc in
   (16 <=? length f) && ok_prefix (eager [] (tc_ops tc)) (firstn (length f - 16) f).
+Definition is_dark (s : st) : bool := match pc s with PDark => true | _ => false end.
 Definition tc_in_window (tc : tcase) : bool := in_window (tc_single tc) (tc_state tc).
 
 (* ---- one case of the liveness tie: messages / SIGCHLD / check_tid_list on real processes ---- *)
